@@ -360,7 +360,8 @@ impl<'s> Tokenizer<'s> {
                     self.tokenize_block_or_var(BlockSentinel::LineStatement)
                 }
                 Some(LexerState::Variable) => self.tokenize_block_or_var(BlockSentinel::Variable),
-                None => panic!("empty lexer stack"),
+                // a standalone expression has no enclosing template to return to
+                None => return Err(self.syntax_error("unexpected end of variable block")),
             };
             match ok!(outcome) {
                 ControlFlow::Break(rv) => return Ok(Some(rv)),
